@@ -30,7 +30,16 @@
           `invalid_array_index_read/_write`, `write_access_denied`,
           `write_access_denied_custom`, `castOut_error_is_reject`, `ladder_error`
           (forward direction: the condition implies exactly that refusal);
-          `unknown_object_write_iff` (both directions for unknown-object)
+          BOTH directions, as a total ordered case split over conditions on the state:
+          `readLadder` + `readLadder_sound` / `readLadder_complete` / `read_error_iff`
+          (+ `read_unknown_object_iff`, `read_unknown_property_iff`,
+          `read_not_an_array_iff`, `read_invalid_array_index_iff`), hypothesis
+          `deviceItemsOK` (invariant: `deviceItemsOK_preserved`);
+          `writeLadder` + `writeLadder_spec` / `write_error_iff` / `write_ack_ladder`
+          (+ `unknown_object_write_iff`, `write_unknown_property_iff`,
+          `write_not_an_array_iff`, `write_reject_iff`, `objLadder_codes`) for the six
+          answers incl. the datatype Reject and Commandable's priority checks,
+          hypothesis `deviceOK` (invariant: `deviceOK_preserved`)
   * "Array properties answer index 0 with their length, indexes 1..n with the
     elements and anything else with an invalid-array-index error"
         → `array_index_classes`, `array_index_classes_propertyList`
@@ -48,9 +57,8 @@
 
   Partial (see notes/C15.md): Python-level type checks are modelled by datatype
   tags; decoding of constructed values is C03's codec (its outcome is an input:
-  `Wire.dec`); custom property classes are modelled one by one; the converse
-  directions of error_matches ("only under these conditions") are stated for
-  unknown-object on writes only (`unknown_object_write_iff`);
+  `Wire.dec`); custom property classes are modelled one by one (list of what is
+  outside the claim in notes/C15.md);
   vendor extensions are out of scope.
 -/
 import BacVerif.Model.Object
@@ -3707,6 +3715,305 @@ theorem write_reject_iff (d : Device) (r : WriteReq) (n : Nat) (hdev : deviceOK 
   write_error_iff d r _ hdev rfl
 
 
+/-! ### `deviceItemsOK` is an invariant of the device -/
+
+def wvalOK : WVal → Bool
+  | .null => true
+  | .one _ it => itemOK it
+  | .many _ its => its.all itemOK
+
+theorem encItems_ok_all : ∀ (its : List Item) (t : List Tag), encItems its = .ok t →
+    its.all itemOK = true := by
+  intro its
+  induction its with
+  | nil => intro t _; rfl
+  | cons it rest ih =>
+    intro t h
+    cases it with
+    | unenc r => simp [encItems] at h
+    | enc x =>
+      simp only [encItems] at h
+      split at h
+      · simp at h
+      · rename_i ts hr
+        simp [itemOK, ih ts hr]
+
+/-- what `cast_out` produces always encodes -/
+theorem castOut_wvalOK (dt : DT) (idx : Option Nat) (w : Wire) (v : WVal)
+    (h : castOut dt idx w = .ok v) : wvalOK v = true := by
+  unfold castOut at h
+  split at h
+  · simp at h; subst h; rfl
+  · split at h
+    · rw [castElem_one _ _ _ h]; rfl
+    · rw [castElem_one _ _ _ h]; rfl
+    · obtain ⟨its, hv, henc, _⟩ := castSeq_many _ _ _ _ h
+      subst hv; exact encItems_ok_all _ _ henc
+    · obtain ⟨its, hv, henc, _⟩ := castSeq_many _ _ _ _ h
+      subst hv; exact encItems_ok_all _ _ henc
+    · rw [castElem_one _ _ _ h]; rfl
+
+theorem all_set (its : List Item) (k : Nat) (it : Item) (h : its.all itemOK = true)
+    (hit : itemOK it = true) : (its.set k it).all itemOK = true := by
+  simp only [List.all_eq_true] at h ⊢
+  intro x hx
+  rcases List.mem_or_eq_of_mem_set hx with hx | hx
+  · exact h x hx
+  · subst hx; exact hit
+
+theorem all_fixLength (its : List Item) (n : Nat) (dflt : Item) (h : its.all itemOK = true)
+    (hd : itemOK dflt = true) : (fixLength its n dflt).all itemOK = true := by
+  unfold fixLength
+  simp only [List.all_eq_true] at h ⊢
+  split
+  · intro x hx; exact h x (List.mem_of_mem_take hx)
+  · intro x hx
+    simp only [List.mem_append, List.mem_replicate] at hx
+    rcases hx with hx | ⟨_, hx⟩
+    · exact h x hx
+    · subst hx; exact hd
+
+theorem arraySet_ok (its : List Item) (fixed : Option Nat) (dflt : Item) (i : Nat) (v : WVal)
+    (its' : List Item) (h : arraySet its fixed dflt i v = .ok its')
+    (hits : its.all itemOK = true) (hd : itemOK dflt = true) (hv : wvalOK v = true) :
+    its'.all itemOK = true := by
+  unfold arraySet at h
+  split at h
+  · simp at h
+  · split at h
+    · split at h
+      · split at h
+        · simp at h
+        · split at h
+          · split at h
+            · simp at h; subst h; exact hits
+            · simp at h
+          · simp at h; subst h; exact all_fixLength _ _ _ hits hd
+      · simp at h
+    · split at h
+      · rename_i e it
+        simp at h; subst h
+        exact all_set _ _ _ hits (by simpa [wvalOK] using hv)
+      · simp at h
+
+theorem map_ok {α β : Type} {f : α → β} {x : Except Refusal α} {b : β}
+    (h : x.map f = .ok b) : ∃ a, x = .ok a ∧ b = f a := by
+  cases x with
+  | error r => simp [Except.map] at h
+  | ok a => simp [Except.map] at h; exact ⟨a, rfl, h.symm⟩
+
+theorem stdWrite_slotOK (s : Slot) (v : WVal) (idx : Option Nat) (nv : PVal)
+    (h : stdWrite s v idx = .ok nv) (hs : slotOK s = true) (hv : wvalOK v = true) :
+    slotOK { s with v := nv } = true := by
+  simp only [slotOK, Bool.and_eq_true] at hs ⊢
+  obtain ⟨⟨hpv, hc⟩, hd⟩ := hs
+  refine ⟨⟨?_, hc⟩, hd⟩
+  unfold stdWrite at h
+  split at h
+  · simp at h
+  split at h
+  · simp at h
+  unfold assign at h
+  split at h
+  · split at h
+    · rename_i e fixed dflt hdt
+      split at h
+      · simp at h
+      · rename_i its hold
+        obtain ⟨its', ha, hnv⟩ := map_ok h
+        subst hnv
+        rw [hold] at hpv
+        rw [hdt] at hd
+        exact arraySet_ok _ _ _ _ _ _ ha hpv hd hv
+      · simp at h
+    · simp at h
+  · split at h
+    · simp at h; subst h; simpa [pvalOK, wvalOK] using hv
+    · split at h
+      · split at h
+        · simp at h; subst h; simpa [pvalOK, wvalOK] using hv
+        · simp at h
+      · simp at h; subst h; simpa [pvalOK, wvalOK] using hv
+    · simp at h; subst h; simpa [pvalOK, wvalOK] using hv
+    · simp at h
+
+theorem all_setSlot (pid : Nat) (nv : PVal) : ∀ (props : List Slot),
+    props.all slotOK = true →
+    (∀ s, findSlot pid props = some s → slotOK { s with v := nv } = true) →
+    (setSlot pid nv props).all slotOK = true := by
+  intro props
+  induction props with
+  | nil => intro _ _; rfl
+  | cons x rest ih =>
+    intro h hnew
+    simp only [List.all_cons, Bool.and_eq_true] at h
+    unfold setSlot
+    by_cases hx : x.d.id = pid
+    · simp only [hx, ↓reduceIte, List.all_cons, Bool.and_eq_true]
+      exact ⟨hnew x (by simp [findSlot, hx]), h.2⟩
+    · simp only [hx, ↓reduceIte, List.all_cons, Bool.and_eq_true]
+      refine ⟨h.1, ih h.2 ?_⟩
+      intro s hs
+      exact hnew s (by simp [findSlot, hx, hs])
+
+theorem objWritePlain_itemsOK (d : Device) (o : Object) (pid : Nat) (v : WVal) (idx : Option Nat)
+    (ho : o.props.all slotOK = true) (hv : wvalOK v = true) :
+    (objWritePlain d o pid v idx).1.props.all slotOK = true := by
+  rcases objWritePlain_cases d o pid v idx with ⟨e, he⟩ | ⟨s, hs, hcase⟩
+  · rw [he]; exact ho
+  · rcases hcase with ⟨_, hw⟩ | ⟨nv, hpw, hw⟩
+    · rw [hw]; exact ho
+    · rw [hw]
+      simp only
+      apply all_setSlot _ _ _ ho
+      intro s' hs'
+      rw [hs] at hs'; simp only [Option.some.injEq] at hs'; subst hs'
+      obtain ⟨_, hwhat⟩ := propWrite_ok _ _ _ _ _ _ hpw
+      rcases hwhat with ⟨nv', hnv, hstd⟩ | ⟨hnone, _⟩
+      · simp only [Option.some.injEq] at hnv; subst hnv
+        exact stdWrite_slotOK s v idx nv hstd
+          ((List.all_eq_true.mp ho) s (findSlot_mem _ _ _ hs)) hv
+      · simp at hnone
+
+
+theorem highest_item (slots : List Item) (rdv : PVal) (hit : Item) (h : highest slots rdv = .one hit) :
+    hit ∈ slots ∨ rdv = .one hit := by
+  unfold highest at h
+  split at h
+  · rename_i it hf
+    simp at h; subst h
+    exact Or.inl (List.mem_of_find?_eq_some hf)
+  · exact Or.inr h
+
+theorem cmdSettle_itemsOK (d : Device) (o1 : Object) (c : Cmd) (ho : o1.props.all slotOK = true) :
+    (cmdSettle d o1 c).1.props.all slotOK = true := by
+  unfold cmdSettle
+  split
+  · rename_i pa pv rd hpa hpv hrd
+    split
+    · rename_i slots hpav
+      simp only
+      split
+      · exact ho
+      · split
+        · rename_i hit e hhi hdt
+          apply objWritePlain_itemsOK d o1 c.pv _ none ho
+          have hpaok := (List.all_eq_true.mp ho) pa (findSlot_mem _ _ _ hpa)
+          have hrdok := (List.all_eq_true.mp ho) rd (findSlot_mem _ _ _ hrd)
+          simp only [slotOK, Bool.and_eq_true] at hpaok hrdok
+          rcases highest_item _ _ _ hhi with hm | hr
+          · have := hpaok.1.1
+            rw [hpav] at this
+            simp only [pvalOK, List.all_eq_true] at this
+            simpa [wvalOK] using this hit hm
+          · have := hrdok.1.1
+            rw [hr] at this
+            simpa [wvalOK, pvalOK] using this
+        · exact ho
+    · exact ho
+  · exact ho
+
+theorem cmdSlotWrite_itemsOK (d : Device) (o : Object) (c : Cmd) (v : WVal) (i : Int)
+    (ho : o.props.all slotOK = true) (hv : wvalOK v = true) :
+    (cmdSlotWrite d o c v i).1.props.all slotOK = true := by
+  unfold cmdSlotWrite
+  split
+  · exact ho
+  · split
+    · exact ho
+    · split
+      · rename_i pa pv hpa hpv
+        split
+        · rename_i slots hpav
+          simp only
+          split
+          · exact ho
+          · rename_i it hit
+            apply cmdSettle_itemsOK
+            simp only
+            apply all_setSlot _ _ _ ho
+            intro s' hs'
+            rw [hpa] at hs'; simp only [Option.some.injEq] at hs'; subst hs'
+            have hpaok := (List.all_eq_true.mp ho) pa (findSlot_mem _ _ _ hpa)
+            simp only [slotOK, Bool.and_eq_true] at hpaok ⊢
+            refine ⟨⟨?_, hpaok.1.2⟩, hpaok.2⟩
+            have hsl := hpaok.1.1
+            rw [hpav] at hsl
+            simp only [pvalOK] at hsl ⊢
+            apply all_set _ _ _ hsl
+            -- the new slot content: Null or the written item
+            cases v with
+            | null => simp at hit; subst hit; rfl
+            | many e its => simp at hit
+            | one e' x =>
+              simp only at hit
+              split at hit
+              · split at hit
+                · simp at hit; subst hit; simpa [wvalOK] using hv
+                · simp at hit
+              · simp at hit
+        · exact ho
+      · exact ho
+
+theorem objWrite_itemsOK (d : Device) (o : Object) (pid : Nat) (v : WVal) (idx : Option Nat)
+    (prio : Option Int) (ho : o.props.all slotOK = true) (hv : wvalOK v = true) :
+    (objWrite d o pid v idx prio).1.props.all slotOK = true := by
+  unfold objWrite
+  split
+  · rename_i c _
+    unfold objWriteCmd
+    split
+    · exact cmdSlotWrite_itemsOK d o c v _ ho hv
+    · split
+      · split
+        · unfold cmdWholeWrite
+          have h := objWritePlain_itemsOK d o c.pa v none ho hv
+          split
+          · rename_i o1 r heq; rw [heq] at h; exact h
+          · rename_i o1 heq; rw [heq] at h; exact cmdSettle_itemsOK d o1 c h
+        · exact cmdSlotWrite_itemsOK d o c v _ ho hv
+      · exact objWritePlain_itemsOK d o pid v idx ho hv
+  · exact objWritePlain_itemsOK d o pid v idx ho hv
+
+/-- `deviceItemsOK` (the hypothesis of the read ladder) is an invariant: no
+    write can store an element whose encoding fails with an ExecutionError —
+    written values always encode, and `fix_length` only appends the table's
+    default element (`itemOK dflt`, part of `generated_table_ok`) -/
+theorem deviceItemsOK_preserved (d : Device) (r : WriteReq) (hok : deviceItemsOK d = true) :
+    deviceItemsOK (writeService d r).1 = true := by
+  unfold writeService
+  cases hobj : findObj r.oid d.objs with
+  | none => simpa using hok
+  | some o =>
+    simp only
+    cases hpre : objRead o r.pid r.idx with
+    | error e' => simpa using hok
+    | ok rv0 =>
+      cases rv0 with
+      | none => simpa using hok
+      | whole _ | len _ | elem _ =>
+        simp only
+        cases hs : findSlot r.pid o.props with
+        | none => simpa using hok
+        | some s =>
+          simp only
+          cases hc : castOut s.d.dt r.idx r.value with
+          | error e' => simpa using hok
+          | ok v =>
+            simp only
+            unfold deviceItemsOK at hok ⊢
+            apply all_setObj _ _ _ _ hok
+            simp only
+            exact objWrite_itemsOK d o r.pid v r.idx r.prio
+              ((List.all_eq_true.mp hok) _ (findObj_mem _ _ _ hobj)) (castOut_wvalOK _ _ _ _ hc)
+
+theorem deviceItemsOK_runWrites (d : Device) (rs : List WriteReq) (h : deviceItemsOK d = true) :
+    deviceItemsOK (runWrites d rs) = true := by
+  induction rs generalizing d with
+  | nil => exact h
+  | cons r rest ih => exact ih _ (deviceItemsOK_preserved d r h)
+
+
 /-! ## non-vacuity: concrete instances that meet the hypotheses
 
   A device built from the GENERATED table: an analogValue object of a vendor
@@ -3806,6 +4113,24 @@ example : (match rpmRef (some av) ⟨pidRequired, some 2⟩ with
     | .error _ => []) =
     [(85, some 2, 1), (486, some 2, 0), (111, some 2, 1), (36, some 2, 1), (81, some 2, 1), (117, some 2, 1),
      (75, some 2, 1), (77, some 2, 1), (79, some 2, 1)] := by decide +kernel
+-- read_error_iff / write_error_iff: the state hypotheses hold, and the ladders decide every one of
+-- the named answers on concrete requests (and let the acknowledged ones through)
+example : deviceItemsOK dev = true ∧ deviceOK dev = true := by decide +kernel
+example : readLadder dev (2, 9) 85 none = some .unknownObject ∧
+    readLadder dev (2, 1) 9999 none = some .unknownProperty ∧
+    readLadder dev (2, 1) 111 none = some .unknownProperty ∧          -- statusFlags has no value
+    readLadder dev (2, 1) 85 (some 1) = some .notAnArray ∧
+    readLadder dev (2, 1) 486 (some 4) = some .invalidArrayIndex ∧
+    readLadder dev (2, 1) 486 (some 3) = none := by decide +kernel
+example : writeLadder dev { wPv with oid := (2, 9) } = some .unknownObject ∧
+    writeLadder dev { wPv with pid := 9999 } = some .unknownProperty ∧
+    writeLadder dev { wPv with idx := some 1 } = some .notAnArray ∧
+    writeLadder dev { wTag with idx := some 4 } = some .invalidArrayIndex ∧
+    writeLadder dev wRo = some .writeAccessDenied ∧
+    writeLadder dev wBad = some (.reject rejInvalidTag) ∧
+    writeLadder dev wCmd17 = some .invalidArrayIndex ∧
+    writeLadder dev { wCmd with prio := some 0 } = some .writeAccessDenied ∧
+    writeLadder dev wPv = none ∧ writeLadder dev wCmd = none := by decide +kernel
 -- fresh_object_reads_its_type: every generated type satisfies typeOK (part of generated_table_ok)
 example : typeOK t_analogValue = true := by decide +kernel
 
